@@ -1,5 +1,4 @@
 import difflib
-import filecmp
 import pathlib
 from typing import Iterable, Sequence, Callable, Tuple, List
 
@@ -287,9 +286,17 @@ class _ExtDepsOfBothHandler:
 
     def _do_compare(self,
                     processed_actual_file_path: pathlib.Path) -> bool:
-        actual_file_name = str(processed_actual_file_path)
-        expected_file_name = str(self._expected)
-        return filecmp.cmp(actual_file_name, expected_file_name, shallow=False)
+        # Compares the files as text (not bytes),
+        # since this is how every other access to the contents reads it.
+        with processed_actual_file_path.open() as actual_file:
+            with self._expected.open() as expected_file:
+                while True:
+                    actual_chunk = actual_file.read(_COMPARISON_BUFFER_SIZE)
+                    expected_chunk = expected_file.read(_COMPARISON_BUFFER_SIZE)
+                    if actual_chunk != expected_chunk:
+                        return False
+                    if not actual_chunk:
+                        return True
 
     @staticmethod
     def _actual_file_contents_detail(actual: pathlib.Path) -> DetailsRenderer:
@@ -303,6 +310,9 @@ class _ExtDepsOfBothHandler:
     def _diff_detail(self, actual: pathlib.Path) -> DetailsRenderer:
         return _diff_detail(LinesReader(actual).read,
                             LinesReader(self._expected).read)
+
+
+_COMPARISON_BUFFER_SIZE = 2 ** 16
 
 
 def _min_num_chars_to_read(operand: str) -> int:
